@@ -32,7 +32,12 @@ InAlias == {TrStk("LIST", <<[PStack(es, <<FALSE, FALSE>>) EXCEPT !.form = f], Lf
                             TrCnd(<<"k">>, "Eq", [PStack(es, <<FALSE, FALSE>>) EXCEPT !.form = f])>>) :
               es \in Patterns, f \in {"alias", "walias", "ptr"}}
 
-Trees == CASE FAMILY = "top" -> Top [] FAMILY = "instack" -> InStack [] FAMILY = "incond" -> InCond [] FAMILY = "alias" -> InAlias
+\* two levels down: the pattern stack inside a Stack that is itself nested -- directly, or as a Condition's expression
+Deep    == {TrStk("OR", <<TrCnd(<<"k">>, "Eq", TrStk("AND", <<PStack(es, <<FALSE, FALSE>>), Lf(11)>>)), TrStk("AND", <<Lf(12)>>)>>) : es \in Patterns}
+      \cup {TrStk("LIST", <<TrStk("AND", <<Lf(11), PStack(es, <<FALSE, FALSE>>)>>), Lf(12)>>) : es \in Patterns}
+      \cup {TrStk("LIST", <<TrStk("AND", <<TrCnd(<<"k">>, "Eq", PStack(es, <<FALSE, FALSE>>)), TrStk("OR", <<Lf(11)>>)>>), Lf(12)>>) : es \in Patterns}
+
+Trees == CASE FAMILY = "top" -> Top [] FAMILY = "instack" -> InStack [] FAMILY = "incond" -> InCond [] FAMILY = "alias" -> InAlias [] FAMILY = "deep" -> Deep
 
 VARIABLES cs, lim
 Init == cs \in Trees /\ lim \in Limits /\ DfInDomain(cs, lim)
